@@ -51,6 +51,7 @@ fn main() {
     match argv[1].as_str() {
         "c13" => c13::main(&a),
         "c13cli" => c13::cli_main(&a),
+        "c04lines" => c04::lines_main(&a),
         "c14dbg" => lg::c14dbg(&a),
         "c03" => c03::main(&a),
         "c02" => c02::main(&a),
